@@ -487,7 +487,9 @@ def write_evidence(pid, tier, seed, t0, prop, broken, stats, nviol):
     ev = {'property_id': pid, 'tier': tier, 'seed': seed, 'level': 'proof', 'coverage': cov,
           'assumptions': list(getattr(prop, 'ASSUMPTIONS', [])) if prop else [],
           'wall_s': round(time.time() - t0, 2), 'violations': nviol}
-    with open(os.path.join(VERIF, 'evidence', pid + '.json'), 'w') as f:
+    evdir = os.environ.get('VERIF_EVIDENCE_DIR') or os.path.join(VERIF, 'evidence')
+    os.makedirs(evdir, exist_ok=True)
+    with open(os.path.join(evdir, pid + '.json'), 'w') as f:
         json.dump(ev, f, indent=1, sort_keys=True, default=repr)
 
 
